@@ -15,7 +15,7 @@ EXHAUSTIVE = {'quick': False, 'thorough': False}
 ASSUMPTIONS = ['np.interp is an exact piecewise-linear interpolant up to rounding: relative tolerance 1e-9 + 2e-15 x (condition number of chi at the query + at 0.55 micron), since table and query wavelengths are converted between units in floating point and steep table segments amplify that',
                'a query on an end node expressed in another unit than the table is an inside/outside tie after conversion and is not compared (near-tie filter); in the table\'s own unit end nodes are compared exactly']
 
-WUNITS = {'micron': 1.0, 'cm': 1e-4, 'nm': 1e3, 'Angstrom': 1e4}
+WUNITS = {'micron': 1.0, 'cm': 1e-4, 'nm': 1e3, 'Angstrom': 1e4, 'm': 1e-6, 'mm': 1e-3}
 CUNITS = {'cm2 / g': 1.0, 'm2 / kg': 0.1}      # 1 cm2/g = 0.1 m2/kg
 
 
@@ -43,7 +43,8 @@ def generate(tier, seed):
             elif u < 0.65:
                 q.append(rng.choice([lo, hi]))
             elif u < 0.8:
-                q.append(rng.choice([lo / 2, lo * 0.99, hi * 1.01, hi * 4]))
+                q.append(rng.choice([lo / 2, lo * 0.99, hi * 1.01, hi * 4, lo * (1 - 2.0 ** -14), hi * (1 + 2.0 ** -14), lo * (1 + 2.0 ** -14), hi * (1 - 2.0 ** -14),
+                                     lo * (1 - 2.0 ** -24), hi * (1 + 2.0 ** -24)]))      # just outside / just inside the table: far more than a rounding error away from its ends
             else:
                 q.append(0.55)
         prior = rng.choice([None, None, 'chi', 'chi', 'wav', 'both'])     # what the same object held (and was evaluated with) before it was given this table
@@ -127,9 +128,7 @@ def judge(case, im, mo):
     for t, got, want in zip(case['queries'], im['av'], m):
         on_end = t in (lo, hi)
         near_end = min(abs(t - lo) / lo, abs(t - hi) / hi) < 1e-9
-        if near_end and not (same_unit and on_end):
-            continue
-        if near_end and not same_unit:
+        if near_end and not on_end:
             continue
         rtol = 1e-9 + 2e-15 * (cond(F(t)) + cond_v)       # wavelengths pass through up to four unit conversions before np.interp
         if not close(got, want, rtol, 1e-12):
